@@ -111,7 +111,12 @@ def gen_case(seed, i):
     r = rng.random()
     if r < 0.08:
         opts["regex"] = True
-        opts["name"] = [rng.choice([r".*\.txt", r"[a-m]\..*", r"k|README", r".*"])]
+        if rng.random() < 0.6:
+            opts["name"] = [rng.choice([r".*\.txt", r"[a-m]\..*", r"k|README", r".*"])]
+        if rng.random() < 0.4:
+            opts["path"] = [rng.choice([r".*/sub/.*|.*\.txt", r".*/(a|b)/[^/]*", r"@W@/R1/.*", r"[^/]*|sub/.*", r"a/.*", r".*/k|.*/sub/.*/[^/]*"])]
+        if rng.random() < 0.4:
+            opts["exclude"] = [rng.choice([r".*\.dat|.*/b/.*", r".*/sub", r"k|README", r".*/a|.*/d", r"@W@/R1/a"])]
     else:
         if rng.random() < 0.3:
             opts["name"] = [rng.choice(["*.txt", "*.TXT", "?", "f.*", "*", "README", "x1.txt"])]
@@ -226,6 +231,13 @@ def make_filter(o, W, cwd):
     flags = re.S | (re.I if o.get("i") else 0)
 
     def absp(p):
+        if o.get("regex"):
+            # a regex is absolute when it starts with the root or with `.*`; otherwise the (literal)
+            # working directory is prepended to the WHOLE pattern
+            p = p.replace("@W@", re.escape(W))
+            if p.startswith("/") or p.startswith(".*"):
+                return p
+            return re.escape(cwd.rstrip("/") + "/") + "(?:" + p + ")"
         p = p.replace("@W@", W)
         if p.startswith("/") or p.startswith("**"):
             return p
@@ -394,5 +406,6 @@ def _nonascii_prefix_pruning(case, violation):
     return True
 
 
-KNOWN_PREDICATES = {"c09-regex-alternation-anchoring": _regex_alternation_unanchored,
-                    "c09-nonascii-literal-prefix-pruning": _nonascii_prefix_pruning}
+# c09-regex-alternation-anchoring was repaired in /repo (4f9f8e1): its predicate is gone, its witness is a
+# regression case now (replays/regress/)
+KNOWN_PREDICATES = {"c09-nonascii-literal-prefix-pruning": _nonascii_prefix_pruning}
